@@ -158,13 +158,22 @@ func QualifyObjects[T SchemaObject](specs []T) error {
 	// After objects were qualified, they might be conflicted with different
 	// resources that labeled with the schema name. e.g., ("s1", "users") and
 	// ("s1"). To resolve this conflict, we qualify these objects as well.
-	for _, v := range specs {
-		if v.QualifierLabel() == "" && schemas[v.Label()] {
-			schemaName, err := SchemaName(v.SchemaRef())
-			if err != nil {
-				return err
+	// Qualifying an object makes its schema name a qualifier as well. Hence,
+	// repeat until no object is labeled with the name of a used qualifier.
+	for changed := true; changed; {
+		changed = false
+		for _, v := range specs {
+			if v.QualifierLabel() == "" && schemas[v.Label()] {
+				schemaName, err := SchemaName(v.SchemaRef())
+				if err != nil {
+					return err
+				}
+				v.SetQualifier(schemaName)
+				if !schemas[schemaName] {
+					schemas[schemaName] = true
+					changed = true
+				}
 			}
-			v.SetQualifier(schemaName)
 		}
 	}
 	return nil
